@@ -89,8 +89,25 @@ class ExecBase:
         fr = fractions.Fraction(repr(f)) if not isinstance(f, int) else fractions.Fraction(f)
         return z3.RealVal(f"{fr.numerator}/{fr.denominator}")
 
+    OPTINT = ("opt", "int")
+
+    def is_optint(self, v):
+        return isinstance(v, V) and v.kind == ("opt", "int")
+
+    def optint_val(self, v):
+        S = self.w.optint_sort()
+        return V("int", S.val(v.t))
+
+    def optint_is_none(self, v):
+        S = self.w.optint_sort()
+        return S.is_none(v.t)
+
     def num_coerce(self, a, b):
         """-> (ta, tb, kind) after int/real coercion"""
+        if self.is_optint(a):
+            a = self.optint_val(a)     # arithmetic on None raises TypeError in Python: the `safe` obligation is emitted by binop
+        if self.is_optint(b):
+            b = self.optint_val(b)
         if a.kind == "bool":
             a = V("int", z3.If(a.t, 1, 0))
         if b.kind == "bool":
@@ -142,6 +159,17 @@ class ExecBase:
 
     def coerce(self, v, kind):
         kind = self.w.base_kind(kind)
+        if kind == ("opt", "int"):
+            S = self.w.optint_sort()
+            if v is NONE:
+                return V(kind, S.none)
+            if isinstance(v, V) and v.kind == kind:
+                return v
+            if isinstance(v, V) and v.kind in ("int", "bool"):
+                return V(kind, S.some(self.coerce(v, "int").t))
+            raise EngineError(f"cannot coerce {v} to Optional[int]")
+        if kind == "int" and self.is_optint(v):
+            return self.optint_val(v)
         if v is NONE:
             if isinstance(kind, tuple) and kind[0] == "dict":
                 return V(kind, self.w.null)
@@ -222,6 +250,8 @@ class ExecBase:
                 return v.t != 0
             if v.kind == "real":
                 return v.t != 0
+            if v.kind == ("opt", "int"):
+                return z3.And(z3.Not(self.optint_is_none(v)), self.optint_val(v).t != 0)
             if isinstance(v.kind, tuple) and v.kind[0] in ("seq", "set"):
                 return SLen(v.t) > 0
             if isinstance(v.kind, tuple) and v.kind[0] == "ref":
@@ -243,6 +273,8 @@ class ExecBase:
             o = b if a is NONE else a
             if isinstance(o, V) and isinstance(o.kind, tuple) and o.kind[0] == "ref":
                 return o.t == self.w.null
+            if self.is_optint(o):
+                return self.optint_is_none(o)
             return z3.BoolVal(False)
         if isinstance(a, V) and isinstance(b, V):
             if a.t.sort() == b.t.sort():
@@ -266,6 +298,13 @@ class ExecBase:
                 for s2, e in self.eq_values(s, a.items[i], b.items[i]):
                     yield from rec(i + 1, s2, acc + [e])
             yield from rec(0, st, [])
+            return
+        if isinstance(a, V) and isinstance(b, V) and (self.is_optint(a) or self.is_optint(b)):
+            if self.is_optint(a) and self.is_optint(b):
+                yield st, a.t == b.t
+            else:
+                o, i = (a, b) if self.is_optint(a) else (b, a)
+                yield st, z3.And(z3.Not(self.optint_is_none(o)), self.optint_val(o).t == self.coerce(i, "int").t)
             return
         if isinstance(a, V) and isinstance(b, V):
             ka, kb = a.kind, b.kind
